@@ -67,3 +67,12 @@ def adjust(h):
     h.ensures("uncalled_unchanged", z3.Implies(called.t == -1, res.t == pred.t), replay=rp)
     h.ensures("called_never_weakened", z3.And(z3.Implies(called.t == 1, res.t >= pred.t), z3.Implies(called.t == 0, res.t <= pred.t)), replay=rp)
     h.ensures("same_rows", len(res.axes) == 1 and res.axes[0] is sp)
+
+
+# the decision table on the real aggregate functions lives with the bootstrap aggregate units (contracts/C06.py):
+import contracts.C06 as _c06  # noqa: E402
+from pyvc.api import UNITS  # noqa: E402
+
+for _u in list(UNITS.get("C06", [])):
+    if _u["name"] in ("aggregate_intervals.state", "aggregate_intervals.district", "aggregate_predictions.state", "aggregate_predictions.district"):
+        UNITS.setdefault("C07", []).append(dict(_u, prop="C07"))
